@@ -221,6 +221,40 @@ theorem model_ordinary_covers_lossless (alpha : List (List Rat)) (n : Nat) (hw :
   have hy := expcone_y_nonneg _ _ _ (hrows j hj)
   exact (mul_nonneg_iff_of_pos_left (Real.exp_pos 1)).mp hy
 
+/-- … AND CONVERSELY: AGE vectors certified over the automatic covers (nonnegative on the sign cover and zero outside it, as the compiled
+    AGE vectors are) are a decomposition with full covers; so the automatic covers certify exactly what full covers certify -/
+theorem model_ordinary_covers_sound (alpha : List (List Rat)) (n : Nat) (hw : ∀ r ∈ alpha, r.length = n) (hnd : alpha.Nodup)
+    (Nl : List Nat) (c : Fin alpha.length → ℝ) (ŵ : Fin alpha.length → Fin alpha.length → ℝ)
+    (hŵ : ∀ i, c i < 0 → OrdAgeCert (alphaR alpha n) i (coverSet alpha.length (ordFinal alpha Nl i.val)) (ŵ i))
+    (hpos : ∀ i, c i < 0 → ∀ j ∈ coverSet alpha.length (signCover alpha.length Nl i.val), 0 ≤ ŵ i j)
+    (hzero : ∀ i l, c i < 0 → l ≠ i → l ∉ coverSet alpha.length (signCover alpha.length Nl i.val) → ŵ i l = 0) :
+    ∃ w : Fin alpha.length → Fin alpha.length → ℝ,
+      (∀ k, OrdAgeCert (alphaR alpha n) k (Finset.univ.erase k) (w k)) ∧
+      (∀ l, ∑ k, w k l = ∑ i ∈ Finset.univ.filter (fun i => c i < 0), ŵ i l) := by
+  refine ⟨fun k => if c k < 0 then ŵ k else (fun _ => 0), ?_, ?_⟩
+  · intro k
+    by_cases hk : c k < 0
+    · simp only [hk, if_true]
+      have h1 := (ordFinal_lossless alpha n hw hnd Nl k (ŵ k) (hpos k hk)).mpr (hŵ k hk)
+      apply Sageopt.Props.C06.ordAge_cover_mono (alphaR alpha n) k _ (Finset.univ.erase k) _ _ _ h1
+      · intro l hl
+        refine Finset.mem_erase.mpr ⟨?_, Finset.mem_univ l⟩
+        intro e
+        rw [e] at hl
+        have h0 : (signCover alpha.length Nl k.val).getD k.val false = true := by
+          simpa [coverSet] using hl
+        rw [signCover_getD] at h0
+        simp at h0
+      · intro l hl hlS
+        rw [hzero k l hk (Finset.ne_of_mem_erase hl) hlS]
+    · simp only [hk, if_false]
+      exact ⟨fun _ => 0, fun _ => 0, fun j _ => Or.inr ⟨rfl, by simp, by simp⟩, by simp, by simp⟩
+  · intro l
+    rw [Finset.sum_filter]
+    apply Finset.sum_congr rfl
+    intro k _
+    by_cases hk : c k < 0 <;> simp [hk]
+
 /-! ### non-vacuity: exponents (0,0), (2,0), (0,2), (1,0): the guard holds, the cone of index 3 loses the index 2 -/
 
 example : simpGuard [[0, 0], [2, 0], [0, 2], [1, 0]] = true ∧ simpZeroLoc [[0, 0], [2, 0], [0, 2], [1, 0]] = 0 := by decide +kernel
